@@ -39,7 +39,7 @@ ASSUMPTIONS = [
     'position (dask merges equal pure tasks, so invocation *counts* are not compared here; C01 covers exactly-once on the table)',
     'distributed scheduler, Spark and graphviz runners not exercised (need a cluster/JVM/binaries)',
 ]
-FLOORS = {'fan-out': 0.3, 'source-fanout': 0.1, 'unequal-branches': 0.15, 'pyfunc': 0.3, 'dask-train': 0.05}
+FLOORS = {'fan-out': 0.3, 'source-fanout': 0.1, 'unequal-branches': 0.15, 'pyfunc-failing-request': 0.2, 'dask-train': 0.05}
 LEVEL_TEXT = (
     'Differential generated-program search: the same compiled table is executed by each backend and by an independent '
     'dependency-ordered interpreter; provenance terms make any difference in what an actor received or what was persisted '
@@ -109,9 +109,17 @@ def read_store(root):
 # ---- running one table on one backend --------------------------------------------------------------------------------------------
 
 
+def _mentions_boom(value) -> bool:
+    if not isinstance(value, term.Term):
+        return value == 'boom'
+    return any('boom' in t.kids for t in term.subterms(value))
+
+
 def norm_calls(calls):
     out = set()
     for kind, name, hp, state, args in calls:
+        if any(_mentions_boom(a) for a in args):
+            continue  # invocations of the deliberately failing request are not part of the comparison
         out.add((kind, name, hp.dig, None if state is None else state.dig, tuple(a.dig if isinstance(a, term.Term) else repr(a) for a in args)))
     return out
 
@@ -184,7 +192,17 @@ def run_backend(backend, symbols, root):
                 value.append(results[id(leaves[0])] if len(leaves) == 1 else None)
         elif backend == 'pyfunc':
             expression = pyfunc.Expression(symbols)
-            value = [expression(entry) for entry in (None, 'e1', 'e2')]
+            value = [expression(entry) for entry in (None, 'e1')]
+            if FAILING[0] is not None:  # a request failing inside some actor must fail alone
+                actors.FAIL[0] = FAILING[0]
+                try:
+                    expression('boom')
+                    value.append('failing request did not raise')
+                except actors.Injected:
+                    pass
+                finally:
+                    actors.FAIL[0] = None
+            value.append(expression('e2'))
         elif backend.startswith('dask-'):
             scheduler = backend.split('-', 1)[1]
             if scheduler == 'processes':
@@ -273,8 +291,20 @@ def check_dask_processes(ctx, spec):
     check_table(ctx, spec, ['reference', 'dask-processes'], 'dask-processes')
 
 
+#: name of the actor failing in the middle request of the serving history of the current case (None = no failing request)
+FAILING = [None]
+
+
 def check_pyfunc(ctx, spec):
-    check_table(ctx, spec, ['reference-entry', 'pyfunc'], 'pyfunc')
+    applied = [n for n in spec['nodes'] if n['mode'] == 'apply']
+    FAILING[0] = None
+    if 'fail' in spec and spec['fail'] % 3 != 0:
+        FAILING[0] = spec['groups'][applied[spec['fail'] % len(applied)]['g']]['name']
+    try:
+        check_table(ctx, spec, ['reference-entry', 'pyfunc'], 'pyfunc' if FAILING[0] is None else 'pyfunc-failing-request')
+    finally:
+        FAILING[0] = None
+        actors.FAIL[0] = None
 
 
 def campaigns(ctx):
